@@ -28,6 +28,13 @@ Strata added by the coverage audit (all judged by the same oracle):
   handler close   the handler object ends the session itself (421 to RCPT, 421 to the message, an exception)
                   with more pipelined bytes behind.
   big body        a body larger than the recv size (a "burst" is then several recv() results).
+  starttls        servers that OFFER STARTTLS (a TLS context is configured, vf/tls.py) and streams with STARTTLS
+                  commands that are REFUSED -- with an argument (501), before EHLO (503), by the handler object
+                  (454 / 554 / 421; every server of this stratum has a refusing STARTTLS handler, so a handshake can
+                  never start: what follows a successful STARTTLS is C08's business) -- upper / lower case, twice,
+                  in the command phase, inside a transaction, between transactions and directly behind an
+                  end-of-data line; the session goes on in clear text and every pipelined byte behind the refused
+                  command must be handled as in the stop-and-wait run.
   concurrent      2..3 sessions (own Server, own handler object, own socket) run as greenlets at the same time:
                   a recv() with no data ready switches back to the feeder, which hands the next segment to a
                   (seeded) session of its choice, so the sessions interleave segment by segment, each under its own
@@ -43,6 +50,7 @@ import random
 
 from vf.core import khash
 from vf.sock import ScriptSocket, cut
+from vf import tls as vtls
 from slimta.smtp.server import Server
 from slimta.smtp import ConnectionLost
 
@@ -52,7 +60,7 @@ LEVEL_TEXT = ('Real Server + IO + DataReader on a scripted socket with a recordi
               'grid (body kind x transaction layout x {no SIZE limit, SIZE=64}), a sweep of the SIZE limit over '
               'every value around short bodies, a catalogue of hostile command lines (NUL, 8-bit, over-long, '
               'malformed, bare LF) at three positions, unterminated stream tails, handler-closed sessions, bodies '
-              'larger than the recv size, 2-3 concurrently fed sessions (greenlets switching at every recv() without '
+              'larger than the recv size, servers offering STARTTLS whose STARTTLS commands are all refused, 2-3 concurrently fed sessions (greenlets switching at every recv() without '
               'data), plus seeded random sessions of 1-3 transactions mixing all of these; '
               'each stream is run once stop-and-wait (reference) and then under ~100-500 other '
               'segmentations; reply bytes and callback trace (with message content) compared exactly on every '
@@ -67,7 +75,8 @@ RULE = ('case = one client byte stream (EHLO|HELO, 1-3 transactions MAIL/RCPT+/D
         'MAIL SIZE= too large) are scripted by address. First a designed grid, then seeded random sessions. '
         'Audit strata: SIZE limit swept over 1..wire+2 for short bodies (cuts at the limit byte, all cut pairs over '
         'the body); hostile command lines before / inside / directly behind a transaction; stream ending inside a '
-        'line; handler closing the session; body > 4096 bytes; 2-3 concurrent sessions interleaved segment by '
+        'line; handler closing the session; body > 4096 bytes; servers offering STARTTLS with refused STARTTLS '
+        'commands (argument / before EHLO / handler verdict 454, 554, 421) at every position; 2-3 concurrent sessions interleaved segment by '
         'segment (designed pairs/triples x per-session segmentations x seeded / round-robin / nested feeding '
         'orders), each compared with its own stop-and-wait reference. '
         'Each case = 1 reference run + every segmentation listed in the module docstring (each one evaluation). '
@@ -87,6 +96,9 @@ REQUIRED_HITS = ['reference-run', 'replies-compared', 'trace-compared', 'ref-mes
                  'ref-hostile-line-consumed', 'ref-hostile-line-directly-behind-eod', 'ref-end/exception',
                  'ref-open-tail', 'ref-stream-ends-inside-message', 'ref-session-ended-before-stream-end', 'ref-session-closed-by-handler-421',
                  'ref-session-closed-by-handler-exception', 'ref-unit-larger-than-recv-size',
+                 'ref-starttls-refused/argument', 'ref-starttls-refused/before-ehlo',
+                 'ref-starttls-refused/handler-verdict', 'ref-starttls-refused-directly-behind-eod',
+                 'conc/session-offering-starttls',
                  'conc/session-compared', 'conc/command-phase-while-other-inside-data-no-limit',
                  'conc/command-phase-while-other-inside-data-with-limit', 'conc/two-sessions-inside-data']
 SHARDS = {'quick': 16, 'thorough': 16}
@@ -340,6 +352,45 @@ def audit_designed():
                    E + txn(0, 's', ['r'], AUDIT_BODIES[kind], [b'NOOP']) + txn(1, 's', ['r'], 'plain') + Q)
 
 
+# ---- servers offering STARTTLS, refused STARTTLS commands ---------------------------------------------------
+
+TLS_LINES = {
+    'plain': [b'STARTTLS\r\n'],                  # refused by the handler object (454 / 554 / 421)
+    'arg': [b'STARTTLS now\r\n'],                # 501
+    'lower': [b'starttls\r\n'],
+    'mixed-blanks': [b'StartTLS  \t\r\n'],
+    'bare-lf': [b'STARTTLS\n'],
+    'twice': [b'STARTTLS\r\n', b'STARTTLS\r\n'],
+    'arg-then-plain': [b'STARTTLS 1\r\n', b'starttls\r\n'],
+}
+TLS_VERDICTS = ('454', '554', '421')
+
+
+def starttls_designed():
+    """Yield case dicts (without rs/nrand)."""
+    E = [['c', b'EHLO c\r\n']]
+    Q = [['c', b'QUIT\r\n']]
+    N = [['c', b'NOOP\r\n']]
+    for verdict in TLS_VERDICTS:
+        for name in sorted(TLS_LINES):
+            S = [['c', ln] for ln in TLS_LINES[name]]
+            t0, t1 = txn(0, 's', ['r'], 'cmds'), txn(1, 's', ['r'], 'plain')
+            layouts = {
+                # before EHLO (503), in the command phase, directly behind a message, between transactions
+                'tls-around': S + E + S + N + t0 + S + N + t1 + Q,
+                # inside a transaction (after MAIL, after RCPT), then behind an empty message
+                'tls-inside': E + t0[:1] + S + t0[1:2] + S + txn(0, 's', ['r'], 'empty')[2:] + S + S + N + Q,
+                # nothing but the refused command and what is pipelined behind it
+                'tls-then-txn': E + S + t1 + Q,
+            }
+            for layout, units in sorted(layouts.items()):
+                yield {'origin': 'starttls', 'limit': None, 'tls': verdict, 'kinds': ['cmds'],
+                       'layout': layout + ':' + name, 'units': units}
+            yield {'origin': 'starttls', 'limit': LIMIT, 'tls': verdict, 'kinds': ['over-cmds'],
+                   'layout': 'tls-behind-too-big:' + name,
+                   'units': E + S + txn(0, 's', ['r'], 'over-cmds') + S + N + txn(1, 's', ['r'], 'half') + Q}
+
+
 # ---- concurrent sessions ----------------------------------------------------------------------------------
 
 NCONC_RANDOM = {'quick': 120, 'thorough': 4000}
@@ -349,7 +400,8 @@ def conc_streams():
     """name -> (limit, units): the sessions that are put side by side."""
     E = [['c', b'EHLO c\r\n']]
     Q = [['c', b'QUIT\r\n']]
-    return {
+    S, SA, SL = ['c', b'STARTTLS\r\n'], ['c', b'STARTTLS now\r\n'], ['c', b'starttls\r\n']
+    plain = {
         'cmds-only': (None, E + [['c', b'NOOP\r\n'], ['c', b'RSET\r\n'], ['c', b'VRFY someone\r\n'],
                                 ['c', b'MAIL FROM:<s0@x>\r\n'], ['c', b'RSET\r\n'], ['c', b'NOOP\r\n']] + Q),
         'plain-2txn': (None, E + txn(0, 's', ['r'], 'plain') + txn(1, 's', ['r', 'r'], 'dotdot', [b'NOOP']) + Q),
@@ -363,6 +415,15 @@ def conc_streams():
         'lim-small': (12, E + txn(0, 's', ['r'], SWEEP_BODIES['sw-dots'], [b'NOOP']) +
                       txn(1, 's', ['r'], SWEEP_BODIES['sw-empty']) + Q),
     }
+    out = {k: (lim, u, None) for k, (lim, u) in plain.items()}
+    # servers offering STARTTLS; every STARTTLS command is refused (argument, before EHLO, handler verdict)
+    out['tls-454'] = (None, [S] + E + [S, ['c', b'NOOP\r\n']] + txn(0, 's', ['r'], 'cmds') +
+                      [S, ['c', b'NOOP\r\n']] + txn(1, 's', ['r'], 'plain') + Q, '454')
+    out['tls-arg-lim'] = (LIMIT, E + [SA, ['c', b'NOOP\r\n']] + txn(0, 's', ['r'], 'over-cmds') +
+                          [SA, SL, ['c', b'NOOP\r\n']] + txn(1, 's', ['r'], 'half') + Q, '554')
+    out['tls-in-txn'] = (None, E + txn(0, 's', ['r'], 'empty')[:1] + [SL] + txn(0, 's', ['r'], 'empty')[1:] +
+                         [S, S, ['c', b'RSET\r\n'], ['c', b'NOOP\r\n']] + Q, '454')
+    return out
 
 
 CONC_SEGS = ('burst', 'per-line', 'per-unit', 'bytewise', 'rand')
@@ -456,6 +517,11 @@ def gen_cases(tier, seed, shard, nshards):
             yield {'origin': stratum, 'limit': limit, 'kinds': kinds, 'layout': layout, 'units': units,
                    'rs': 5000 + n, 'nrand': NRANDOM_CUTS}
         n += 1
+    for c in starttls_designed():
+        if n % nshards == shard:
+            c.update(rs=7000 + n, nrand=NRANDOM_CUTS)
+            yield c
+        n += 1
     for c in concurrent_cases(tier, seed):
         if n % nshards == shard:
             yield c
@@ -468,7 +534,16 @@ def gen_cases(tier, seed, shard, nshards):
         if limit == 'near':         # somewhere around the wire size of one of the bodies
             sizes = [len(d) for k, d in units if k == 'b']
             limit = max(1, rnd.choice(sizes) + rnd.choice([-9, -5, -4, -3, -2, -1, 0, 0, 1, 2]))
-        yield {'origin': 'random-audit' if audit else 'random', 'limit': limit, 'kinds': kinds,
+        tls = None
+        if audit and rnd.random() < 0.35:
+            tls = rnd.choice(['454', '454', '554', '421'])
+            for _ in range(rnd.randrange(1, 4)):
+                at = rnd.randrange(0, len(units) + 1)
+                if at < len(units) and units[at][0] == 'b':
+                    at += 1
+                for ln in reversed(TLS_LINES[rnd.choice(sorted(TLS_LINES))]):
+                    units.insert(at, ['c', ln])
+        yield {'origin': 'random-audit' if audit else 'random', 'limit': limit, 'tls': tls, 'kinds': kinds,
                'layout': 'random', 'units': units, 'rs': rnd.randrange(1 << 30), 'nrand': NRANDOM_CUTS}
 
 
@@ -485,9 +560,17 @@ def _plain(v):
 class Handlers(object):
     """Records every callback the server makes.  Refusals are decided from arguments only."""
 
-    def __init__(self):
+    def __init__(self, tls_verdict=None):
         self.trace = []
         self.sender = ''
+        self.tls_verdict = tls_verdict
+
+    def STARTTLS(self, reply, extensions):
+        # servers with a TLS context always refuse: a handshake never starts in this check
+        self._rec('STARTTLS', reply)
+        reply.code = self.tls_verdict or '454'
+        reply.message = {'421': '4.7.0 TLS not available, closing', '554': '5.7.0 TLS refused'}.get(
+            reply.code, '4.7.0 TLS not available due to temporary reason')
 
     def _rec(self, name, reply, *args):
         self.trace.append([name, getattr(reply, 'code', None), getattr(reply, 'message', None)] +
@@ -555,9 +638,25 @@ class Run(object):
     __slots__ = ('replies', 'trace', 'end', 'fed', 'recv_calls')
 
 
-def run_server(sock, limit):
-    h = Handlers()
-    srv = Server(sock, h, address=('client.example', 4321))
+_CTX = []
+
+
+def tls_context():
+    if not _CTX:
+        _CTX.append(vtls.server_context())
+    return _CTX[0]
+
+
+def shard_cleanup():
+    vtls.cleanup()
+
+
+def run_server(sock, limit, tls=None):
+    h = Handlers(tls)
+    if tls:
+        srv = Server(sock, h, address=('client.example', 4321), context=tls_context())
+    else:
+        srv = Server(sock, h, address=('client.example', 4321))
     if limit:
         srv.extensions.add('SIZE', limit)
     try:
@@ -572,7 +671,7 @@ def run_server(sock, limit):
     return r
 
 
-def run_reference(units, limit):
+def run_reference(units, limit, tls=None):
     """Stop-and-wait: the next unit is fed only when the server reads and nothing is pending."""
     st = {'i': 0, 'lines': [], 'fed': [], 'as_lines': 0}
 
@@ -599,14 +698,14 @@ def run_reference(units, limit):
         ss.feed(seg)
 
     ss = ScriptSocket([], eof=True, on_recv=on_recv)
-    r = run_server(ss, limit)
+    r = run_server(ss, limit, tls)
     r.fed = st['fed']
     return r, st['as_lines'], st['i'] >= len(units) and not st['lines'] and not ss.segments
 
 
-def run_segments(segs, limit):
+def run_segments(segs, limit, tls=None):
     ss = ScriptSocket(segs, eof=True)
-    r = run_server(ss, limit)
+    r = run_server(ss, limit, tls)
     r.fed = None
     return r
 
@@ -724,15 +823,15 @@ def run_concurrent(case, R):
     feeder = greenlet.getcurrent()
     S = []
     for name, how in zip(case['sessions'], case['segs']):
-        limit, units = cat[name]
+        limit, units, tls = cat[name]
         stream = b''.join(d for _, d in units)
         cuts, segs = conc_segments(stream, units, how, rnd)
-        S.append({'name': name, 'limit': limit, 'units': units, 'stream': stream, 'cuts': cuts, 'segs': segs,
+        S.append({'name': name, 'limit': limit, 'units': units, 'stream': stream, 'cuts': cuts, 'segs': segs, 'tls': tls,
                   'next': 0, 'sock': SwitchSocket(feeder), 'run': None, 'overlapped_inside_data': False})
     # --- the sessions: real Server objects, each in its own greenlet
     for s in S:
         def body(s=s):
-            s['run'] = run_server(s['sock'], s['limit'])
+            s['run'] = run_server(s['sock'], s['limit'], s['tls'])
         s['g'] = greenlet.greenlet(body, parent=feeder)
     for s in S:
         s['g'].switch()                 # banner, then blocks in its first read
@@ -783,7 +882,9 @@ def run_concurrent(case, R):
     # --- oracle, per session: the stop-and-wait reference run of that session alone
     for k, s in enumerate(S):
         R.eval(2)
-        ref, as_lines, all_fed = run_reference(s['units'], s['limit'])
+        ref, as_lines, all_fed = run_reference(s['units'], s['limit'], s['tls'])
+        if s['tls']:
+            R.hit('conc/session-offering-starttls')
         R.hit('reference-run')
         var = s['run']
         R.hit('conc/session-compared')
@@ -793,7 +894,7 @@ def run_concurrent(case, R):
             continue
         # is it the segmentation (judged by the other strata) or the company?
         R.eval()
-        solo = run_segments(s['segs'], s['limit'])
+        solo = run_segments(s['segs'], s['limit'], s['tls'])
         alone_ok = solo.replies == ref.replies and solo.trace == ref.trace
         d = first_diff(ref.trace, var.trace) if var is not None else 0
         clause = 'callback-trace-differs' if d is not None else 'replies-differ-trace-equal'
@@ -896,7 +997,8 @@ def run_case(case, R):
 
     # --- reference run (stop-and-wait)
     R.eval()
-    ref, as_lines, all_fed = run_reference(units, limit)
+    tls = case.get('tls')
+    ref, as_lines, all_fed = run_reference(units, limit, tls)
     R.hit('reference-run')
     if any(_toobig(e) for e in ref.trace):
         R.hit('ref-message-too-big')
@@ -923,6 +1025,28 @@ def run_case(case, R):
                 R.hit('ref-hostile-line-directly-behind-eod')
         if len(d) > 4096 and d in fed:
             R.hit('ref-unit-larger-than-recv-size')
+    tls_lines = set(ln for v in TLS_LINES.values() for ln in v)
+    n_tls = 0
+    if tls:
+        if b'220 2.7.0 Go ahead' in ref.replies:
+            R.inconclusive('harness: a STARTTLS command was accepted (must always be refused in this check)')
+            return
+        seen_ehlo = False
+        for i, (k, d) in enumerate(units):
+            if k == 'c' and d[:4].upper() in (b'EHLO', b'HELO') and d in fed:
+                seen_ehlo = True
+            if k == 'c' and d in tls_lines and d in fed:
+                n_tls += 1
+                if len(d.split()) > 1:
+                    R.hit('ref-starttls-refused/argument')
+                elif not seen_ehlo:
+                    R.hit('ref-starttls-refused/before-ehlo')
+                if i and units[i - 1][0] == 'b' and units[i - 1][1] in fed:
+                    R.hit('ref-starttls-refused-directly-behind-eod')
+        nh = sum(1 for e in ref.trace if e[0] == 'STARTTLS')
+        if nh:
+            R.hit('ref-starttls-refused/handler-verdict', nh)
+            R.observe('starttls-handler-verdict', tls)
     if open_tail and all_fed:
         R.hit('ref-open-tail')
         if open_body and units[-1][1] in fed + [b''] and ref.end == 'connection-lost':
@@ -953,7 +1077,7 @@ def run_case(case, R):
                 R.observe('limit-crossing', (where, len(d) - limit if len(d) - limit < 6 else 6, last, first))
     # one tag at most (the most specific audit stratum the stream belongs to), so that one root cause does not
     # fan out into a mechanism per combination
-    extra_tag = ([t for t, on in (('+open-tail', open_tail), ('+hostile-lines', n_hostile),
+    extra_tag = ([t for t, on in (('+starttls-refused', n_tls), ('+open-tail', open_tail), ('+hostile-lines', n_hostile),
                                   ('+handler-close', ref.end == 'exception:RuntimeError' or
                                    b'\r\n421 4.' in ref.replies)) if on] + [''])[0]
     R.observe('ref-reply-code-sequence', tuple(reply_codes(ref.replies)))
@@ -975,7 +1099,7 @@ def run_case(case, R):
         R.observe('stream-x-segmentation', (sid, cuts))
         segs = cut(stream, cuts)
         R.eval()
-        var = run_segments(segs, limit)
+        var = run_segments(segs, limit, tls)
         ncmp += 1
         R.hit('replies-compared')
         R.hit('trace-compared')
